@@ -92,5 +92,64 @@ def _case(kind):
     return fn
 
 
+ALL_METHODS = ["jacobian_self_oplus_other_wrt_self", "jacobian_self_oplus_other_wrt_other", "jacobian_self_ominus_other_wrt_self", "jacobian_self_ominus_other_wrt_other"]
+ALL_METHODS += [m + "_compact" for m in ALL_METHODS]
+
+
+def _all_jacobians(p, o, q):
+    out = {m: getattr(p, m)(o) for m in ALL_METHODS}
+    out["jacobian_boxplus"] = p.jacobian_boxplus()
+    out["jacobian_inverse"] = p.jacobian_inverse()
+    out["jacobian_self_oplus_point_wrt_self"] = p.jacobian_self_oplus_point_wrt_self(q)
+    out["jacobian_self_oplus_point_wrt_point"] = p.jacobian_self_oplus_point_wrt_point(q)
+    return out
+
+
+def _state_free(kind):
+    """the Jacobians are functions of the operand VALUES only: (a) a pose object that was used once and whose components
+    were then overwritten in place gives the Jacobians of a fresh pose with the new values (nothing cached on the
+    object); (b) passing the very same object as both operands gives what an equal-valued copy gives"""
+    pt = POINT_OF[kind]
+
+    def fn(P, g):
+        import numpy
+
+        from .common import pose_cls
+
+        np = P.np
+        cls = pose_cls(g, kind)
+        p = mk_pose(P, g, kind, "p", wrapped=True)
+        o = mk_pose(P, g, kind, "o", wrapped=True)
+        q = mk_pose(P, g, pt, "pt")
+        _all_jacobians(p, o, q)  # first use
+        _all_jacobians(o, p, q)
+        new = mk_pose(P, g, kind, "pnew", wrapped=True)
+        p[:] = new.to_array()
+        got = _all_jacobians(p, o, q)
+        ref = _all_jacobians(new, o, q)
+        for m in got:
+            P.check_eq("after_edit:%s" % m, got[m], ref[m])
+        got2 = _all_jacobians(o, p, q)  # the edited object as the OTHER operand
+        ref2 = _all_jacobians(o, new, q)
+        for m in ALL_METHODS:
+            P.check_eq("after_edit_other:%s" % m, got2[m], ref2[m])
+        # the same object on both sides
+        twin = cls(*_ctor(kind, numpy.array(o.to_array(), copy=True)))
+        for m in ALL_METHODS:
+            P.check_eq("same_object:%s" % m, getattr(o, m)(o), getattr(o, m)(twin))
+
+    return fn
+
+
+def _ctor(kind, arr):
+    if kind in ("R2", "R3"):
+        return (arr,)
+    if kind == "SE2":
+        return (arr[:2], arr[2])
+    return (arr[:3], arr[3:])
+
+
 def cases(tier):
-    return [Case(k, _case(k), timeout=20, old_timeout=30, validate=2 if tier == "quick" else 6) for k in POSE_KINDS]
+    out = [Case(k, _case(k), timeout=20, old_timeout=30, validate=2 if tier == "quick" else 6) for k in POSE_KINDS]
+    out += [Case("state-free-" + k, _state_free(k), timeout=20, old_timeout=30, validate=2) for k in POSE_KINDS]
+    return out
